@@ -130,7 +130,8 @@ def _monitored_run(src, inputs, o):
     mod = real.QModule.parse(b)
     dbg = mod.debug_info
     clause = ('SimpleCaseClause', 'RangeCaseClause', 'CompareCaseClause', 'ArrayDimRange', 'VarDeclClause',
-              'AnyVarDeclClause', 'PrintSep', 'ElseClause', 'CaseStmt', 'CaseElseStmt')
+              'AnyVarDeclClause', 'PrintSep', 'ElseClause')
+    # (CASE and CASE ELSE are statements: since 413459d their record is the test with its jump, and it starts at a boundary)
     # statement starts = code offsets of the start markers the code generator emitted for statements (not for the
     # clauses inside a statement, whose code runs while the statement's operands are on the stack)
     from qbee.stmt import Stmt, Block
